@@ -208,8 +208,11 @@ def run(ctx):
         if p == 1:
             n = rng.randint(4, 30)
             Xn = hostile(rng, n, 1, kind)
-            X = pd.DataFrame(Xn)
-            inp = {"detector": "StatThresholdAnomaliser", "n": n, "p": 1, "data": kind, "X": Xn.tolist()}
+            # the row labels play no role for POSITIONS: default labels, labels shared by neighbouring rows (several records per time stamp), time stamps with a repeated hour
+            ixk = ["default", "repeated-labels", "repeated-hour"][n % 3]
+            X = pd.DataFrame(Xn, index=None if ixk == "default" else (pd.Index(np.arange(n) // 2) if ixk == "repeated-labels" else
+                                                                        pd.DatetimeIndex(sorted(list(pd.date_range("2021-10-31", periods=n - 1, freq="h")) + [pd.Timestamp("2021-10-31 02:00")][: 1 if n > 3 else 0] + ([] if n > 3 else [pd.Timestamp("2021-10-31 00:00")])))))
+            inp = {"detector": "StatThresholdAnomaliser", "n": n, "p": 1, "data": kind, "X": Xn.tolist(), "row_labels": ixk}
             d, y = attempt("StatThresholdAnomaliser", lambda: StatThresholdAnomaliser(PELT(min_segment_length=1, penalty_scale=0.2), stat_lower=-0.5, stat_upper=0.5), X, inp)
             if y is not None:
                 iv = [(int(l), int(r)) for l, r in zip(y["ilocs"].array.left, y["ilocs"].array.right)]
